@@ -1286,3 +1286,72 @@ Theorem C02_bridge_bootstrap_table_read : forall impl dec cs s tbl r t,
     C01.Pool.map_res C01.ClassFile.bsm_entry vs = Ok B /\ X12.BridgeDyn.table_agrees cs tbl B.
 Proof. exact X12.BridgeFile.bootstrap_table_read. Qed.
 Print Assumptions C02_bridge_bootstrap_table_read.
+
+(* ================================================================================================ *)
+(* Round 6, fifth layer — the widened fragment (coq/X12/BridgeFmt2.v, BridgeFile2.v). *)
+From FB Require X12.BridgeFmt2 X12.BridgeFile2.
+
+(* THE WHOLE FILE, widened fragment (dclass_frag2, decidable on facts_of t aux):
+     class  within {SourceFile, Signature, InnerClasses, NestHost, NestMembers, BootstrapMethods, Deprecated, Synthetic}
+     field  within {ConstantValue, Signature, Deprecated, Synthetic}
+     method within {Code, Exceptions, Signature, Deprecated, Synthetic}
+     Code   within {LineNumberTable, LocalVariableTable, LocalVariableTypeTable}
+   read_class on the written bytes = build_class on the pool as read and explicit values; the class attribute values
+   are related to the facts by crel: equal to the explicit value, except that a BootstrapMethods attribute is given up to
+   the handle indices standing in the file — its bsm_entry projection is a table that agrees with the writer's
+   (table_agrees), the hypothesis under which C02_bridge_loadable_read / C02_bridge_indy_read resolve the Dynamic /
+   InvokeDynamic constants of the file; names_ok2: the decoder maps the 14 attribute names to themselves *)
+Theorem C02_bridge_class_file_wide : forall impl dec t bs aux d,
+  cclass_ok t = true -> write_class_aux t = WOK (bs, aux) ->
+  C01.Attr.header_ok C01.Tables.magic (Z.to_N (k_minor t)) (Z.to_N (k_major t)) = true ->
+  X12.BridgeClass.pool_utf8_ok dec (a_pool aux) = true -> X12.BridgeFmt2.names_ok2 dec = true ->
+  facts_of t aux = Some d -> X12.BridgeFile2.dclass_frag2 d = true ->
+  exists cs cattrs,
+    rev (p_inner (a_pool aux)) = map mk cs /\ agrees (a_pool aux) (cslots cs 1) /\
+    Forall2 (X12.BridgeFile2.crel dec cs) (d_attrs d) cattrs /\
+    C01.ClassFile.read_class impl dec bs
+    = C01.ClassFile.build_class impl (X12.BridgePool.rpool dec cs) (Z.to_N (k_minor t)) (Z.to_N (k_major t))
+        (X12.BridgeClass.head_val dec t)
+        (C01.Fmt.VList cattrs)
+        (C01.Fmt.VList (map (X12.BridgeFile.member_val dec 1%N (X12.BridgeFile2.fattr_val2 dec)) (d_fields d)))
+        (C01.Fmt.VList (map (X12.BridgeFile.member_val dec 2%N (X12.BridgeFile2.mattr_val2 dec)) (d_methods d))).
+Proof. exact X12.BridgeFile2.class_file_read2. Qed.
+Print Assumptions C02_bridge_class_file_wide.
+
+(* non-vacuity: a deprecated generic class with InnerClasses, NestMembers, SourceFile, Signature and BootstrapMethods; a
+   deprecated synthetic field with ConstantValue and Signature; a generic method throwing O whose Code holds new, ldc, a
+   conditional, an invokedynamic call site (handle kind 6, arguments an Integer and a Class), return, an exception range,
+   two line numbers and a local variable with descriptor and signature.  In the fragment; and C01's read_class on the
+   written bytes, computed (invokedynamic resolved through the table it read), succeeds with 5 instructions, 1 exception
+   range, 2 line numbers and 2 local-variable entries *)
+Theorem C02_bridge_class_file_wide_example : exists bs aux d cs cattrs,
+  write_class_aux X12.BridgeFile2.ex_file2 = WOK (bs, aux) /\ cclass_ok X12.BridgeFile2.ex_file2 = true /\ length (a_bsm aux) = 1%nat /\
+  facts_of X12.BridgeFile2.ex_file2 aux = Some d /\ X12.BridgeFile2.in_fragment2 X12.BridgeFile2.ex_file2 aux = true /\
+  Forall2 (X12.BridgeFile2.crel C01.Mutf8.mutf8_dec cs) (d_attrs d) cattrs /\ length cattrs = 6%nat /\
+  C01.ClassFile.read_class true C01.Mutf8.mutf8_dec bs
+  = C01.ClassFile.build_class true (X12.BridgePool.rpool C01.Mutf8.mutf8_dec cs) 0%N 61%N
+      (X12.BridgeClass.head_val C01.Mutf8.mutf8_dec X12.BridgeFile2.ex_file2)
+      (C01.Fmt.VList cattrs)
+      (C01.Fmt.VList (map (X12.BridgeFile.member_val C01.Mutf8.mutf8_dec 1%N (X12.BridgeFile2.fattr_val2 C01.Mutf8.mutf8_dec)) (d_fields d)))
+      (C01.Fmt.VList (map (X12.BridgeFile.member_val C01.Mutf8.mutf8_dec 2%N (X12.BridgeFile2.mattr_val2 C01.Mutf8.mutf8_dec)) (d_methods d))) /\
+  X12.BridgeFile2.desc_check2 (C01.ClassFile.read_class true C01.Mutf8.mutf8_dec bs) = true.
+Proof. exact X12.BridgeFile2.class_file_example2. Qed.
+Print Assumptions C02_bridge_class_file_wide_example.
+
+(* a closed form of build_class's Code step, for a Code attribute without inner attributes: the tree receives the
+   instructions of S — the label-free form C01's read_code delivers on (code array, exception triples), which by
+   C02_bridge_code_attr / C02_bridge_write_read is the translated instruction list — with their pool operands resolved,
+   and the exception entries with their offsets replaced by the instruction indices of S *)
+Theorem C02_bridge_build_code_closed : forall impl dec p b k S,
+  dc_attrs k = [] -> C01.Model.read_code (X12.BridgeFile2.ci_of k) = Ok S ->
+  exists ix,
+    C01.Model.cs_exc S = map (fun e => match e with (s, e', h) => (ix s, ix e', ix h) end) (map X12.BridgeCode.exc3 (dc_exceptions k)) /\
+    C01.ClassFile.build_code impl p b (X12.BridgeFile2.code_val2 dec k)
+    = Base.Str.bind (C01.Pool.map_res (C01.ClassFile.resolve_entry p b) (C01.Model.cs_insns S)) (fun xi =>
+        Ok {| C01.ClassFile.k_max_stack := Z.to_N (dc_max_stack k); C01.ClassFile.k_max_locals := Z.to_N (dc_max_locals k);
+              C01.ClassFile.k_insns := xi; C01.ClassFile.k_last := C01.Model.cs_last S;
+              C01.ClassFile.k_exc := map (C01.Fmt.map_pcs ix) (map (X12.BridgeCode.exc_val dec) (dc_exceptions k));
+              C01.ClassFile.k_lines := []; C01.ClassFile.k_lvs := []; C01.ClassFile.k_frames := [];
+              C01.ClassFile.k_vta := []; C01.ClassFile.k_ita := []; C01.ClassFile.k_unknown := [] |}).
+Proof. exact X12.BridgeFile2.build_code_closed. Qed.
+Print Assumptions C02_bridge_build_code_closed.
